@@ -24,7 +24,7 @@ CFG = dict(
          "(incl. profiles without samples / with only empty stacks); hand-made corner profiles; exhaustive small scope (all pairs of "
          "stacks of depth <= 2 (quick: 1/3 of them) or <= 3 (thorough) over 4 locations x 3 granularities); distinct = sha256 of the "
          "input term; non-trivial = at least one sample has a frame",
-    spec_what="stack set served to the flame graph violates the C17 statement (stack/frames mismatch, interning, value sum, self, "
+    spec_what="(incl. Total = sum of magnitudes over all samples, Scale = unit factor x ratio, Unit) stack set served to the flame graph violates the C17 statement (stack/frames mismatch, interning, value sum, self, "
               "places, index range, null array or missing field)",
     trusted_base=["harness HTML tokenizer (c17_page.go), cross-checked on every web case against the Gallina tokenizer S_Handoff.script_data_end",
                   "graph.ShortenFunctionName and filepath.Clean+ToSlash as oracles (answers shipped per case, identity where equal)",
